@@ -23,3 +23,41 @@ def register(reg):
         "werkzeug/datastructures/range.py:ContentRange.__bool__", prop=P, self_model=CR, returns="bool",
         ensures=["result == (self._units is not None)"],
     )
+
+    # ---- cache-control typed accessors at dict level -------------------------------------------------------
+    P2 = "C06,C16"
+    CC = reg.model("CacheControl", cls="werkzeug/datastructures/cache_control.py:_CacheControl",
+                   fields={"__dict__": "Dict[str, Optional[str]]", "on_update": "Optional[opaque:callback]", "provided": "bool"})
+    reg.spec("CD(self)", "self.__dict__")
+    reg.spec("others_kept(self, key)", "forall_s(lambda k: implies(k != key, (k in CD(self)) == (k in old(CD(self)))))")
+    reg.contract(
+        "werkzeug/datastructures/cache_control.py:_CacheControl._set_cache_value#bool", prop=P2, self_model=CC,
+        params={"key": "str", "value": "bool", "type": ("builtin", "bool")},
+        ensures=["(key in CD(self)) == value", "implies(value, CD(self)[key] is None)", "others_kept(self, key)"],
+    )
+    reg.contract(
+        "werkzeug/datastructures/cache_control.py:_CacheControl._get_cache_value#bool", prop=P2, self_model=CC,
+        params={"key": "str", "empty": "Optional[str]", "type": ("builtin", "bool")},
+        ensures=["result == (key in CD(self))"],
+    )
+    reg.contract(
+        "werkzeug/datastructures/cache_control.py:_CacheControl._set_cache_value#int", prop=P2, self_model=CC,
+        params={"key": "str", "value": "Optional[int]", "type": ("builtin", "int")},
+        ensures=["(key in CD(self)) == (value is not None)",
+                 "implies(value is not None, CD(self)[key] == str(value))", "others_kept(self, key)"],
+    )
+    reg.contract(
+        "werkzeug/datastructures/cache_control.py:_CacheControl._get_cache_value#int", prop=P2, self_model=CC,
+        params={"key": "str", "empty": "Optional[int]", "type": ("builtin", "int")},
+        ensures=["implies(not (key in CD(self)), result is None)",
+                 "implies(key in CD(self) and CD(self)[key] is None, result == empty)",
+                 # what was stored by the int setter reads back as that int
+                 "implies(key in CD(self) and CD(self)[key] is not None and re_in(CD(self)[key], '-?[0-9]+') "
+                 "        and len(CD(self)[key]) <= int_max_digits(), result == str_to_int(CD(self)[key]))"],
+        raises={},
+    )
+    reg.contract(
+        "werkzeug/datastructures/cache_control.py:_CacheControl._del_cache_value", prop=P2, self_model=CC,
+        params={"key": "str"},
+        ensures=["not (key in CD(self))", "others_kept(self, key)"],
+    )
